@@ -810,7 +810,21 @@ func (fr *Frame) concat(a, b *Val, t types.Type) *Val {
 
 func (fr *Frame) stringEq(a, b *Val) *Term {
 	env := &Env{st: fr.st}
-	return env.seqEqual(fr.strRow(a), a.Off, a.Len, fr.strRow(b), b.Off, b.Len)
+	ra, rb := fr.strRow(a), fr.strRow(b)
+	if _, lit := a.Len.Int64(); lit {
+		return env.seqEqual(ra, a.Off, a.Len, rb, b.Off, b.Len)
+	}
+	if _, lit := b.Len.Int64(); lit {
+		return env.seqEqual(rb, b.Off, b.Len, ra, a.Off, a.Len)
+	}
+	// symbolic lengths: name the outcome by a fresh Boolean so that no quantifier
+	// ends up inside path conditions; a fresh witness index serves the negative case
+	eq := Fresh("streq", BoolS)
+	w := Fresh("strdiff", IntS)
+	all := env.seqEqual(ra, a.Off, a.Len, rb, b.Off, b.Len)
+	diff := Or(Not(Eq(a.Len, b.Len)), And(Le(IntLit(0), w), Lt(w, a.Len), Not(Eq(Select(ra, Add(a.Off, w)), Select(rb, Add(b.Off, w))))))
+	fr.u.facts = append(fr.u.facts, Implies(eq, all), Implies(Not(eq), diff))
+	return eq
 }
 
 func (fr *Frame) bytesToString(a *Val, t types.Type) *Val {
